@@ -40,6 +40,7 @@ def gen_events(rng, parties, max_events, min_len=0, style=None, values='small',
     offset = 0
     for p in range(k):
         script = []
+        span = 0
         for n in range(lens[p]):
             if style == 'uniform':
                 d = rng.choice(special)
@@ -53,6 +54,7 @@ def gen_events(rng, parties, max_events, min_len=0, style=None, values='small',
                 d = rng.choice(special)
             else:  # sametime
                 d = 0
+            own = d
             if n == 0 and style == 'sequential':
                 d += offset
             if values == 'small':
@@ -68,8 +70,9 @@ def gen_events(rng, parties, max_events, min_len=0, style=None, values='small',
             else:
                 v = rng.randint(-50, 50)
             script.append((d, [v, 1 if rng.random() < p_close else 0]))
+            span += own
         if style == 'sequential':
-            offset += sum(d for d, _ in script) + 1
+            offset += span + 1     # the next party starts when this one has finished (linear, not doubling)
         scripts[p] = script
     evs = resolve_schedule(rng, scripts)
     out = []
